@@ -347,6 +347,14 @@ func (m *metaRun) reseal(stream []byte, slots []uint16, o op) {
 		q = append(q, 0xaa)
 		q = append(q, p[hdr+8:]...)
 		variant, label = reseal(q), "wrapping-lengths"
+		// the same payload through the in-memory importer (it used to panic: fixed as 7a5f0648f)
+		func() {
+			e := openMetaDB()
+			defer e.close()
+			n, _ := metadb.VerifC11Normalize(slots)
+			err := e.db.MetaDB().ImportHashSlotSnapshot(bg, metadb.SlotSnapshot{HashSlots: n, Data: variant})
+			m.terms = append(m.terms, vh.App("XDataReject", vh.N(metadb.VerifC11ErrClass(err)), vh.N(uint64(len(e.kv())))))
+		}()
 	case 10: // a user row whose value has no token prefix
 		hs := s.Slots[0]
 		k := []byte{metadb.VerifC11DomainMeta, metadb.VerifC11PartitionHashSlot, byte(hs >> 8), byte(hs), metadb.VerifC11SpaceRow, 0, 0, 0, byte(metadb.VerifC11TableUser), 0, 2, 'z', 'z', 0, 0}
